@@ -4,7 +4,7 @@ with that level's own bracketing samples (slicemodel); poison allocator (two poi
 must give byte-identical trees); taste with box coordinates; min/max rows vs written data."""
 import os, random, shutil
 import numpy as np
-from .. import common, gen, refparse, refmodel, workload, pools, poison, slicemodel
+from .. import common, gen, refparse, refmodel, workload, pools, poison, slicemodel, endurance
 
 ID = "C16"
 LEVEL = "exploration"
@@ -18,7 +18,7 @@ RULE = ("cases = generated 3D plotfiles with affine / tagged / random fields x n
 ASSUMPTIONS = ["per box, pixels where the level holds only one of the two bracketing samples are "
                "not judged for the exact value (statement does not single out a value)",
                "pool shim M1"]
-REQUIRED_OBS = {"plotfiles_written": 100, "written_onto_existing_output": 40, "reused_instance_slices": 30, "boxes_checked": 300, "pixels_decided": 5000,
+REQUIRED_OBS = {"endurance_calls": 100, "plotfiles_written": 100, "written_onto_existing_output": 40, "reused_instance_slices": 30, "boxes_checked": 300, "pixels_decided": 5000,
                 "splitting_cases": 1, "multi_level": 20, "cli_runs": 10}
 CHAIN = {"quick": 2, "thorough": 20}
 TIMEOUT = {"quick": 600, "thorough": 3000}
@@ -54,7 +54,8 @@ def cases(tier, seed):
         g = dict(seed=rng.randrange(10 ** 9), ndims=3, nlevels=1, names=[f"q{k}" for k in range(10)],
                  payload="random", base=[64 * nbx, 64 * nby, 2], sizes=[[64], [64], [2]], aniso=False)
         cs.append({"kind": "split", "gen": g, "sel_seed": seed * 59 + i})
-    return workload.add_reach_store(cs)
+    # M10: the same operation repeated in one process under a low open-file limit (vlib/endurance.py)
+    return list(workload.add_reach_store(cs)) + [endurance.case("slice_plotfile", tier, seed)]
 
 
 def setup():
@@ -247,6 +248,8 @@ def cli_vs_api(case, work, rec, m, path, digest, rng):
 
 
 def run_case(case, work, rec):
+    if case.get("kind") == "endurance":
+        return endurance.run_case(case, work, rec)
     from amr_kitchen.mandoline import Mandoline
     rng = random.Random(case["sel_seed"])
     m, path = workload.build(case, work)
